@@ -80,7 +80,9 @@ CLAIMED.update({
         technique="Lean 4 proof (semantic abstraction of the nested setdefault merge; induction over lines; permutation corollary) + field-by-field correspondence with Config() + union/permutation/option-scope monitors on the real objects",
         text=("C17_union (tuples of a loaded line list = union of the single-line tuples), C17_perm (order independence), C17_line_ext "
               "(slash / deb-<arch> vs [arch=] spellings only matter through the parsed fields), C17_findKey_scope (an option selects "
-              "exactly the repository whose key is its URL without trailing slashes) are proved for all line lists; C17_getBool_spec and "
+              "exactly the repository whose key is its URL without trailing slashes) are proved for all line lists; C17_skipClean_scope / _boundary / "
+              "_nested (a skip-clean URL names exactly the repositories it is a part of, at path boundaries; Model/Config.lean skipCleanTargets is "
+              "compared with Config._update_skip_clean); C17_getBool_spec and "
               "C17_getSize_spec state get_bool / get_size for every value (ASCII); "
               "the character-level model of from_line and the merge are compared with the real Config on random configurations, and "
               "union / all permutations / option scoping are re-checked on the real objects (URL universe includes nested URLs and URLs that "
